@@ -19,7 +19,7 @@ PROPS = {
         ],
     },
     "C04": {
-        "lean_modules": ["DocsModel.Props.C04"],
+        "lean_modules": ["DocsModel.Props.C04", "DocsModel.Props.C04Link"],
         "trusted_base": COMMON_TRUST + [
             "redb tables are modelled as sorted lists whose range() is the in-order filter by the bounds; redb itself is not verified",
             "the gossip transport (iroh-gossip) and the network are not modelled: a broadcast is the delivery of an accepted local write to insert_remote_entry, which is what engine/gossip.rs::receive_loop does with an Op::Put; the harness calls the same function with the same arguments",
@@ -27,7 +27,7 @@ PROPS = {
         ],
         "assumptions": [
             "PayloadFunctional on the set of written entries: two local writes with the same author, key, timestamp and content hash are the same entry (true of honest writers: Ed25519 signatures are deterministic) - the exclusion is F11",
-            "the step `session i j` of the swarm model sets both replicas to the merge of their states: that a complete session between mutually valid replicas does this is property C01 (its convergence clause is validated by the correspondence check, message by message, also inside this harness)",
+            "the step `session i j` of the swarm model sets both replicas to the merge of their states: step_session_is_protocol_session proves that this is exactly the pair of final states of the message-level session of the protocol model (C01 session_total, split factor 2, all entries valid for both sides, injective fingerprints); the real sessions are compared message by message inside this harness as well",
             "at the closing round every timestamp is within every replica's future bound (C03 obliges a replica whose clock is more than ten minutes behind to reject; during the history such rejections are exercised and modelled as losses)",
             "outside the closing round nothing is assumed about sessions ending: a session that does not end within the message budget counts as cut (observed only with split_factor > 2 when one side keeps rejecting the other's entries; see DESIGN.md, observation O1)",
         ],
